@@ -244,10 +244,126 @@ pub async fn c07(seed: u64, thorough: bool) {
             n_merged += 1;
         }
     }
+    // (c) archive level: `Archive::chunk_stream(index)` over HTTP for every subset of the descriptors of
+    // real archives (what a clone asks for when the other chunks were found in seeds): exactly the
+    // missing descriptors are delivered, in archive order, through the maximal runs of their stored ranges.
+    let mut n_arch_cases = 0usize;
+    let mut n_arch_small_between = 0usize;
+    let n_arch = if thorough { 12 } else { 4 };
+    for ai in 0..n_arch {
+        use bitar::api::compress::{create_archive, CreateArchiveOptions};
+        use bitar::chunker::Config;
+        // 6..9 distinct blocks of very different sizes (some well under 512 stored bytes between large ones),
+        // some of them repeated at non-adjacent positions of the source
+        let nblocks = rng.range(6, 9) as usize;
+        let bs = *rng.pick(&[64usize, 300, 700]);
+        let blocks: Vec<Vec<u8>> = (0..nblocks).map(|i| super::chunking::lcg_bytes(1000 * ai as u64 + i as u64 + seed, bs)).collect();
+        let mut order: Vec<usize> = (0..nblocks).collect();
+        if ai % 2 == 0 {
+            order.push(0);
+            order.push(2);
+        }
+        let mut src = Vec::new();
+        for &i in &order {
+            src.extend_from_slice(&blocks[i]);
+        }
+        if ai % 3 == 0 {
+            src.extend_from_slice(&blocks[1][..bs / 3]);
+        }
+        // compressible blocks get small stored sizes next to raw ones
+        let compress = ai % 2 == 1;
+        if compress {
+            for (k, b) in src.chunks_mut(bs).enumerate() {
+                if k % 3 == 1 {
+                    for (j, x) in b.iter_mut().enumerate() {
+                        *x = (k as u8).wrapping_add((j / 32) as u8);
+                    }
+                }
+            }
+        }
+        let opts = CreateArchiveOptions {
+            chunker_config: Config::FixedSize(bs),
+            num_chunk_buffers: 2,
+            chunk_hash_length: 16,
+            temporary_file_override: None,
+            compression: if compress { Some(bitar::Compression::brotli(5).unwrap()) } else { None },
+            metadata: Default::default(),
+        };
+        let mut arch: Vec<u8> = Vec::new();
+        create_archive(std::io::Cursor::new(src.clone()), &mut arch, &opts).await.expect("create_archive");
+        let arch = Arc::new(arch);
+        srv.reset(arch.clone(), vec![]);
+        let url = srv.url();
+        let reader = HttpReader::from_url(url.parse().unwrap()).retries(0);
+        let mut archive = match bitar::Archive::try_init(reader).await {
+            Ok(a) => a,
+            Err(_) => {
+                h::emit_oracle_fail("own-archive-does-not-open-over-http", &format!("archive-level {}", ai));
+                continue;
+            }
+        };
+        let descr: Vec<(bitar::HashSum, u64, usize)> =
+            archive.chunk_descriptors().iter().map(|d| (d.checksum.clone(), d.archive_offset, d.archive_size)).collect();
+        let nd = descr.len().min(10);
+        for mask in 1u32..(1 << nd) {
+            let mut ix = archive.build_source_index();
+            let mut wanted: Vec<&(bitar::HashSum, u64, usize)> = Vec::new();
+            for (i, d) in descr.iter().enumerate() {
+                if i < nd && mask >> i & 1 == 1 {
+                    wanted.push(d);
+                } else {
+                    ix.remove(&d.0);
+                }
+            }
+            srv.reset(arch.clone(), vec![]);
+            let mut got_hashes: Vec<bitar::HashSum> = Vec::new();
+            let mut bad = false;
+            {
+                let mut stream = archive.chunk_stream(&ix);
+                while let Some(r) = stream.next().await {
+                    match r.ok().and_then(|c| c.decompress().ok()).and_then(|c| c.verify().ok()) {
+                        Some(v) => got_hashes.push(v.hash().clone()),
+                        None => {
+                            bad = true;
+                            break;
+                        }
+                    }
+                }
+            }
+            let log = srv.take_log();
+            let raw = srv.take_raw_log();
+            let ranges: Vec<(u64, usize)> = wanted.iter().map(|d| (d.1, d.2)).collect();
+            let runs = oracle_runs(&ranges);
+            let req = format!("archive-level bs={} compress={} descriptors={} wanted-mask={:b} ranges={}", bs, compress, descr.len(), mask, chunks_token(&ranges));
+            let got: Vec<(u64, u64)> = log.iter().map(|r| r.unwrap_or((u64::MAX, 0))).collect();
+            if got != runs {
+                h::emit_oracle_fail("archive-level-requests-are-not-the-maximal-runs-of-the-missing-chunks", &format!("{} got={}", req, reqs_token(&log)));
+            }
+            if bad || got_hashes.len() != wanted.len() || got_hashes.iter().zip(wanted.iter()).any(|(g, w)| *g != w.0) {
+                h::emit_oracle_fail("archive-level-delivered-chunks-are-not-exactly-the-missing-ones-in-archive-order", &req);
+            }
+            // the Range header text against the independent spec in the driver
+            h::emit_case(&format!("runs {}", chunks_token(&ranges)), &h::join(&raw, ","));
+            n_arch_cases += 1;
+            // a lone small stored chunk that is NOT wanted, between two wanted ones
+            for w in descr.windows(3) {
+                if w[1].2 <= 512
+                    && wanted.iter().any(|d| d.0 == w[0].0)
+                    && wanted.iter().any(|d| d.0 == w[2].0)
+                    && !wanted.iter().any(|d| d.0 == w[1].0)
+                {
+                    n_arch_small_between += 1;
+                    break;
+                }
+            }
+        }
+    }
     h::emit_stat("cases", n_cases);
     h::emit_stat("cases_with_several_runs", n_multi_run);
     h::emit_stat("cases_with_merged_chunks", n_merged);
     h::emit_stat("exhaustive_subsets_of_chunks", n_chunks);
+    h::emit_stat("archive_level_subset_cases", n_arch_cases);
+    h::emit_stat("archive_level_cases_with_small_unwanted_chunk_between_wanted", n_arch_small_between);
 }
 
 fn rand_fault(rng: &mut Rng, remaining: usize) -> Resp {
@@ -459,8 +575,11 @@ pub async fn c08_io(seed: u64, thorough: bool) {
                 }
             }
             items
-        })
-        .await;
+        });
+        let res = match tokio::time::timeout(std::time::Duration::from_secs(20), res).await {
+            Ok(r) => r,
+            Err(_) => h::hung(&req),
+        };
         let items = match res {
             Ok(i) => i,
             Err(_) => vec!["P".to_string()],
@@ -576,8 +695,11 @@ pub async fn c08_io(seed: u64, thorough: bool) {
                 }
             }
             bad
-        })
-        .await;
+        });
+        let res = match tokio::time::timeout(std::time::Duration::from_secs(20), res).await {
+            Ok(r) => r,
+            Err(_) => h::hung(&desc),
+        };
         seq_calls += plan.len();
         match res {
             Ok(None) => {}
